@@ -43,6 +43,8 @@ def run_case(case):
     net = simkit.SimNet(sched)
     srv = dict(case.get("server", {}))
     spec = {"close": srv.get("close", ["reply", 0.0]), "eof_after_close": srv.get("eof_after_close", 0.0)}
+    if srv.get("full_close"):
+        spec["full_close"] = True  # the server's end of stream is a close() of its socket: later client writes are answered with a reset
     if srv.get("chatty"):
         iv, cnt = srv["chatty"]
         spec["chatty"] = [iv, cnt, rm.encode_frame(1, rm.TEXT, b"chat")]
@@ -93,7 +95,7 @@ def run_case(case):
                         st_["end_seen"] = True
                         st_["srv_code"] = stp[1]
                     elif op == "srv_eof":
-                        sock.peer_eof()
+                        sock.peer_eof(full=bool(srv.get("full_close")))
                         st_["srv_done"] = True
                         st_["end_seen"] = True
                 continue
@@ -103,6 +105,7 @@ def run_case(case):
             faulted = sock.write_fault is not None  # this call's write will be torn: its encoding is not judged
             sent_before = len(sock.sent)
             connected_before = ws.connected
+            was_reset = sock.rst
             t0 = sched.now
             exc = None
             try:
@@ -173,7 +176,7 @@ def run_case(case):
                 if connected_before:
                     if exc is not None:
                         obs.fail(exc_bucket("close|raised", exc), f"step {i} {stp}: {type(exc).__name__}: {exc}")
-                    if not wrote and not faulted:
+                    if not wrote and not faulted and not was_reset:  # (a connection that was reset takes no more writes)
                         obs.fail("close|no-close-frame-written", f"step {i} {stp}: connection was open, nothing written")
                     if stp[3] is not None and sched.now - t0 > stp[3] + EPS:
                         obs.fail("close|overran-timeout", f"step {i} {stp}: close() took {sched.now - t0:.3f}s of virtual time, timeout {stp[3]}; server={srv}")
@@ -215,7 +218,7 @@ def run_case(case):
             obs.fail("wire|trailing-garbage", f"{len(left)} bytes after the last complete client frame")
     nt = st_["calls_after_end"] >= 1
     ops = [s[0] for s in case["steps"]]
-    obs.cls = (f"steps:{min(len(ops) // 5 * 5, 30)}", f"closepolicy:{srv.get('close', ['reply'])[0]}", f"chatty:{int(bool(srv.get('chatty')))}",
+    obs.cls = (f"steps:{min(len(ops) // 5 * 5, 30)}", f"closepolicy:{srv.get('close', ['reply'])[0]}", f"chatty:{int(bool(srv.get('chatty')))}", f"full_close:{int(bool(srv.get('full_close')))}", f"reset:{int(bool(net.sockets and net.sockets[0].rst))}",
                f"calls_after_end:{min(st_['calls_after_end'], 5)}", f"released:{int(st_['released'])}") + tuple(sorted({f"op:{o}" for o in ops}))
     obs.nt = repr((case["steps"], srv)) if nt else None
     return obs
@@ -260,7 +263,8 @@ step = st.one_of(
 ).map(list)
 server = st.fixed_dictionaries(
     {"close": st.sampled_from([["reply", 0.0], ["reply", 0.0], ["reply", 0.4], ["reply", 2.0], ["reply", 5.0], ["never"]])},
-    optional={"chatty": st.tuples(st.sampled_from([0.2, 0.45, 0.9]), st.sampled_from([3, 6, 12, 40])).map(list), "eof_after_close": st.sampled_from([0.0, 0.3])},
+    optional={"chatty": st.tuples(st.sampled_from([0.2, 0.45, 0.9]), st.sampled_from([3, 6, 12, 40])).map(list), "eof_after_close": st.sampled_from([0.0, 0.3]),
+              "full_close": st.just(True)},
 )
 
 
@@ -273,7 +277,7 @@ ALPHABET = [
     ["shutdown"], ["srv_close", 1000, b""], ["srv_eof"], ["srv_data", True], ["ping", b"p"], ["close", 65536, b"", 1],
     ["recv_frame"], ["fault_write", 3], ["srv_burst", 3],
 ]
-POLICIES = [{"close": ["reply", 0.0]}, {"close": ["never"]}, {"close": ["reply", 0.4], "chatty": [0.2, 6]}]
+POLICIES = [{"close": ["reply", 0.0]}, {"close": ["never"]}, {"close": ["reply", 0.4], "chatty": [0.2, 6]}, {"close": ["reply", 0.0], "full_close": True}]
 
 
 def enum_histories(max_len, shard, of):
